@@ -33,9 +33,10 @@ func e2eProp(id, dir string, bounds, outside []string) *Prop {
 			}
 			return r
 		},
-		Bounds:      bounds,
-		Assumptions: []string{"the parser step is replaced by trees dumped from the real front end on every run (TestVerifDumpAST) and rebuilt node by node", "the reference is the same text compiled as a twin package and executed by the engine under Go's own semantics (natively: the real compiled package)", "package host (inputs A, B; outputs Out; Str, Err, Sort, Read, Write, Copy taking interfaces) is the only interface of a program"},
-		Outside:     outside,
+		SampleModels: []map[string]string{{"a": "0", "b": "0"}, {"a": "1", "b": "-1"}, {"a": "5", "b": "3"}, {"a": "-7", "b": "2"}, {"a": "300", "b": "-200"}, {"a": "-999", "b": "999"}},
+		Bounds:       bounds,
+		Assumptions:  []string{"the parser step is replaced by trees dumped from the real front end on every run (TestVerifDumpAST) and rebuilt node by node", "the reference is the same text compiled as a twin package and executed by the engine under Go's own semantics (natively: the real compiled package)", "package host (inputs A, B; outputs Out; Str, Err, Sort, Read, Write, Copy taking interfaces) is the only interface of a program"},
+		Outside:      outside,
 	}
 }
 
